@@ -599,4 +599,15 @@ def check_c13(res, tier, rng):
     res.suite_stats['op_histogram'] = dict(opc)
     res.add_sample(lines[0][:400]); res.add_sample(lines[-1][:600])
     corr = diff_all(lines, impl, model) if 'model' not in broken else []
-    finish_verdict(res, broken, corr, 'L1v vector histories')
+    # the CELL-LEVEL model (model/RawVec.v: 62 option cells + length, raw writes/copies, set_len; the
+    # object of the refinement theorems of props/C13.v) replays the same histories for the stack back-end
+    if 'model' not in broken:
+        t0 = time.time()
+        for key in [k for k in plan if 'a' not in k[0]]:
+            raw = run_raw(key[1], lines)
+            res.evaluations += len(lines)
+            for k, l in enumerate(lines):
+                if raw[k] != impl[key][k]:
+                    corr.append({'case': l[:2000], 'cfg': key[0], 'build': key[1], 'impl': impl[key][k][:2000], 'cell_level_model': raw[k][:2000]})
+        res.suite_stats['L1v-raw'] = {'cases': len(lines), 'model_s': round(time.time() - t0, 2)}
+    finish_verdict(res, broken, corr, 'L1v vector histories (list-level and cell-level models)')
